@@ -1,5 +1,6 @@
 """Registry entries for Gen/C13Gen.v (C13, and the buffer-independence premise of C02).
 
+  (all Coq names carry the prefix c13_ : other Gen modules trace some of the same functions)
   kstep2d_fresh / kstep3d_fresh   one kernel step on buffers whose row 1 is pre-filled with UNDECLARED
                                   symbolic garbage: the printer rejects any output that mentions it
                                   (free variable), and the numeric validation pre-fills NaN, so an
@@ -101,13 +102,13 @@ def _kernel_fresh(V, A, with_altitude):
 KEXTRA_FRESH = [(ni, 'mat_from_rotvec', gen._stub_mfr), (ni, 'gravity', gen._pyf(ni.gravity))]
 
 
-@gen.traced(MOD, 'kstep2d_fresh', gen.KPARAMS, fast=('dt', 'th0', 'th1', 'th2', 'dv0', 'dv1', 'dv2'),
+@gen.traced(MOD, 'c13_kstep2d_fresh', gen.KPARAMS, fast=('dt', 'th0', 'th1', 'th2', 'dv0', 'dv1', 'dv2'),
             extra=KEXTRA_FRESH)
 def _(V, A):
     return _kernel_fresh(V, A, False)
 
 
-@gen.traced(MOD, 'kstep3d_fresh', gen.KPARAMS, fast=('dt', 'th0', 'th1', 'th2', 'dv0', 'dv1', 'dv2'),
+@gen.traced(MOD, 'c13_kstep3d_fresh', gen.KPARAMS, fast=('dt', 'th0', 'th1', 'th2', 'dv0', 'dv1', 'dv2'),
             extra=KEXTRA_FRESH)
 def _(V, A):
     return _kernel_fresh(V, A, True)
@@ -120,7 +121,7 @@ def _out(name, m):
     return {f"{name}{i}{j}": m[i, j] for i in range(m.shape[0]) for j in range(m.shape[1])}
 
 
-@gen.traced(MOD, 't3d2d', [('VN', VEL), ('VE', VEL)])
+@gen.traced(MOD, 'c13_t3d2d', [('VN', VEL), ('VE', VEL)])
 def _(V, A):
     em = error_model.InsErrorModel(False)
     return _out('t', em._transform_3d_2d(V('VN'), V('VE')))
@@ -137,7 +138,7 @@ def _pva(V):
     return pd.Series(sym._obj(vals), index=TRAJECTORY_COLS, dtype=object)
 
 
-@gen.traced(MOD, 'out2d', PVA, tol=1e-9)
+@gen.traced(MOD, 'c13_out2d', PVA, tol=1e-9)
 def _(V, A):
     em = error_model.InsErrorModel(False)
     return _out('o', em.transform_to_output(_pva(V)))
@@ -146,7 +147,7 @@ def _(V, A):
 X2D = [(f'x{i}', (-3.0, 3.0)) for i in range(4)] + [(f'x{i}', (-1e-2, 1e-2)) for i in range(4, 7)]
 
 
-@gen.traced(MOD, 'correct2d', PVA + X2D, tol=1e-8)
+@gen.traced(MOD, 'c13_correct2d', PVA + X2D, tol=1e-8)
 def _(V, A):
     em = error_model.InsErrorModel(False)
     x = A([V(f'x{i}') for i in range(7)])
@@ -155,13 +156,13 @@ def _(V, A):
     return dict(zip(TRAJECTORY_COLS, vals))
 
 
-@gen.traced(MOD, 'poserr2d', PVA)
+@gen.traced(MOD, 'c13_poserr2d', PVA)
 def _(V, A):
     em = error_model.InsErrorModel(False)
     return _out('h', em.position_error_jacobian(_pva(V)))
 
 
-@gen.traced(MOD, 'velerr2d', PVA)
+@gen.traced(MOD, 'c13_velerr2d', PVA)
 def _(V, A):
     em = error_model.InsErrorModel(False)
     return _out('h', em.ned_velocity_error_jacobian(_pva(V)))
